@@ -33,14 +33,14 @@ OUTSIDE = ["decomposition of the direction and radial parts on SYMBOLIC values (
 
 def bounds(tier):
     b = [1, 2, 3] if tier == "quick" else [1, 2, 3, 4]
-    return {"n_b": b, "n_o": b, "n_t": b, "row_index": "symbolic integer", "index_arrays": "None, every single index, reversed, seeded subset with repeats",
+    return {"n_b": b, "n_o": b, "n_t": b, "cells": "<= 27 quick, <= 36 thorough", "row_index": "symbolic integer", "index_arrays": "None, every single index, reversed, seeded subset with repeats",
             "decompose": "n_b*n_o*n_t <= 12, quaternions symbolic and pairwise separated by > 1e-7, directions / radii concrete generic"}
 
 
 def shapes(tier, seed):
     b = [1, 2, 3] if tier == "quick" else [1, 2, 3, 4]
-    out = [{"kind": "rows", "n_b": x, "n_o": y, "n_t": t} for x in b for y in b for t in b]
-    out += [{"kind": "decompose", "n_b": x, "n_o": y, "n_t": t, "gseed": seed} for x in b for y in b for t in b if x * y * t <= 12]
+    out = [{"kind": "rows", "n_b": x, "n_o": y, "n_t": t} for x in b for y in b for t in b if x * y * t <= 36]
+    out += [{"kind": "decompose", "n_b": x, "n_o": y, "n_t": t, "gseed": seed} for x in b for y in b for t in b if x * y * t <= (12 if tier == "quick" else 18)]
     out.sort(key=lambda s: s["n_b"] * s["n_o"] * s["n_t"])
     return out
 
